@@ -208,21 +208,23 @@ func c20Status(w *core.World, id string) []core.Result {
 	}
 	// the counter counts false entries of the buffer's items
 	cnt := 0
-	for _, b := range fn.Blocks {
-		for _, in := range b.Instrs {
-			bo, ok := in.(*ssa.BinOp)
-			if !ok || w.Render(bo) != "(phi(0|phi↺|(phi↺ + 1)) + 1)" {
-				continue
-			}
-			if _, isPhi := bo.X.(*ssa.Phi); !isPhi || bo.X.Type().String() != "int" {
-				continue
-			}
-			// distinguish from the loop index by its guard
-			if w.GuardedBy(bo, G(`-^\(\*utils/ringbuffer\.RingBuffer\[bool\]\)\.Items\(\$0\.buffer\)\[.*\]$`)) {
-				cnt++
+	w.WithHelpers(fn, func(f *ssa.Function, _ ssa.Instruction) {
+		for _, b := range f.Blocks {
+			for _, in := range b.Instrs {
+				bo, ok := in.(*ssa.BinOp)
+				if !ok || w.Render(bo) != "(phi(0|phi↺|(phi↺ + 1)) + 1)" {
+					continue
+				}
+				if _, isPhi := bo.X.(*ssa.Phi); !isPhi || bo.X.Type().String() != "int" {
+					continue
+				}
+				// distinguish from the loop index by its guard
+				if w.GuardedBy(bo, G(`-^\(\*utils/ringbuffer\.RingBuffer\[bool\]\)\.Items\(\$0\.buffer\)\[.*\]$`)) {
+					cnt++
+				}
 			}
 		}
-	}
+	})
 	if cnt != 1 {
 		out = append(out, core.Bad(id, "REG", construct+":count", w.Pos(fn.Pos()), fmt.Sprintf("the unhealthy counter is not incremented exactly for the false entries of the buffer (found %d matching increments)", cnt)))
 	}
